@@ -395,12 +395,12 @@ func TestVerif_C01_LongSession(t *testing.T) {
 			batch := r.Range(1, 500)
 			for n := 0; n < per; n++ {
 				// near the counts where 8- and 16-bit counters wrap the configuration is made sensitive on purpose: a chunk size
-				// far from the default (large in even sessions, small in odd ones) and payloads of several chunks / above 128 bytes
+				// far from the default (large or small, alternating by session pair) and payloads of several chunks / above 128 bytes
 				nearWrap := (n >= 256-48 && n <= 256+48) || (n >= 65536-48 && n <= 65536+48)
 				if (n > 0 && n%r.Range(2000, 9000) == 0) || n == 256-48 || n == 65536-48 {
 					v := verifGenChunkSize(r)
 					if nearWrap {
-						v = uint32([]int{4096, 17}[i%2])
+						v = uint32([]int{4096, 17}[i/2%2]) // (single-stream sessions are the even ones: both sizes occur among them)
 					}
 					pkt := NewSetChunkSize()
 					pkt.ChunkSize = v
